@@ -2,6 +2,7 @@
 import pyModeS as pms
 from ref import do260 as L
 from ref import frames
+from vlib import variants
 from vlib.core import Leg, call
 
 A = pms.adsb
@@ -23,7 +24,10 @@ ASSUMPTIONS = ["every non-zero TC28 emergency state (incl. 6 'downed aircraft' a
 
 
 def mk(me, rng):
-    return frames.tohex(frames.df17(rng.getrandbits(24), me, ca=rng.getrandbits(3), df=rng.choice([17, 18])), 112, rng.choice("ULM"))
+    m = frames.tohex(frames.df17(rng.getrandbits(24), me, ca=rng.getrandbits(3), df=rng.choice([17, 18])), 112, rng.choice("ULM"))
+    if rng.getrandbits(2) == 0:
+        variants.prelude(pms, m)   # helpers on the same string, and other message types of the same aircraft, decoded first
+    return m
 
 
 def is_rt(r):
